@@ -615,3 +615,46 @@ def pull(gen_, budget_lines=400000, seconds=30.0):
     finally:
         sys.settrace(old)
         signal.setitimer(signal.ITIMER_REAL, 0)
+
+
+# ---------------------------------------------------------------- histories (history.py)
+def _mutate_in_place(v):
+    """what a caller may do with a value it was handed: fill an empty container, empty a filled one"""
+    try:
+        if isinstance(v, list):
+            v.clear() if v else v.append("item")
+        elif isinstance(v, set):
+            v.clear() if v else v.add("item")
+        elif isinstance(v, dict):
+            v.clear() if v else v.update(key="value")
+    except Exception:  # noqa: BLE001
+        pass
+
+
+def history_block(mode, genf, makers, poison=(), seed=0, k=6, need_first=()):
+    """makers: (label, thunk building a FRESH predicate).  One history in one process: every request is made on a temporary predicate,
+    its values are judged by another fresh copy, the caller then mutates the containers it was handed; repeated in several orders and
+    after requests that raise.  need_first: labels whose stream must deliver at least one value (C11's satisfiable requests)."""
+    import history
+    want = (mode == "true")
+
+    def thunk(label, mk):
+        def th():
+            random.seed(seed * 977 + len(label))
+            vals, err = take(genf(mk()), k, seconds=20.0)
+            if err == "timeout":
+                return None
+            judge = mk()
+            for i, v in enumerate(vals):
+                got = call(judge, v)
+                if got != ("ok", want):
+                    return {"p": label, "generate": mode, "position": i, "value": repr(v)[:200], "p(value)": repr(got)}
+            if label in need_first and not vals:
+                return {"p": label, "generate": mode, "position": 0, "what": "a satisfiable request gave an empty stream" + (f" ({err})" if err else "")}
+            for v in vals:
+                _mutate_in_place(v)
+            return None
+        return th
+    calls = [(f"generate_{mode}({lb}), first {k} values, the containers among them then mutated by the caller", thunk(lb, mk)) for lb, mk in makers]
+    # labels must be unique for need_first lookups: thunk() receives the bare label
+    return history.run(calls, poison=list(poison), passes=4, seed=seed, vetted=True)
